@@ -49,6 +49,8 @@ class Driver:
         from _loop import LoopSocket
         self.t = Transport(LoopSocket())
         self.t._channel_counter = c0
+        self.c0 = c0
+        self.rid_n = 0
         self.keep = {}
         self.order = []            # the model's live list (newest first)
         self.pending = []
@@ -63,7 +65,7 @@ class Driver:
         self.open_objs = {}            # id -> channel object of every channel that is open (not closed / failed)
         self.dropped = set()
         for x in reversed(live0):
-            self._put(x, self._new_chan(x))
+            self._put(x, self._new_chan(x, True))
         self.t.server_object = self
         self.t.server_mode = True
         self.inner = None
@@ -71,10 +73,21 @@ class Driver:
         self.reserved = None
 
     # -- helpers -------------------------------------------------------------------------
-    def _new_chan(self, cid):
+    def remote_id(self):
+        """The peer numbers its channels independently: hand out remote ids that differ from the local id and
+        often equal ANOTHER live channel's local id (deterministic: cycles through the live ids)."""
+        self.rid_n += 1
+        live = sorted(self.open_objs)
+        if live and self.rid_n % 4 != 0:
+            return live[self.rid_n % len(live)]
+        return (self.c0 + 3 * self.rid_n) % M24
+
+    def _new_chan(self, cid, established=False):
         from paramiko.channel import Channel
         ch = Channel(cid)
         ch._set_transport(self.t)
+        if established:                 # pre-placed channels (the state after a wrap-around) are established
+            ch.remote_chanid = self.remote_id()
         return ch
 
     def _put(self, x, obj):
@@ -140,13 +153,23 @@ class Driver:
         self.outs.append(cid)
 
     def close(self, x, how=0):
+        """Close channel x the way the library does it: the Channel removes ITSELF from the transport's map
+        (peer CHANNEL_CLOSE -> Channel._handle_close, transport loss -> Channel._unlink).  For an id with no channel
+        there is nothing to drive (the model's Close of a non-live id is a no-op)."""
         obj = self.keep.get(x)
-        if obj is not None and how == 1 and hasattr(obj, "_handle_close"):
-            obj._handle_close(None)            # peer CHANNEL_CLOSE
-        elif obj is not None and how == 2 and hasattr(obj, "_unlink") and not obj.closed:
-            obj._unlink()                      # transport loss
-        else:
-            self.t._unlink_channel(x)
+        if obj is not None:
+            try:
+                if how == 2 and not obj.closed:
+                    obj._unlink()                      # transport loss
+                else:
+                    obj._handle_close(None)            # peer CHANNEL_CLOSE
+            except Exception as e:  # noqa
+                self.problems.append(("close-raised", "closing a channel raised", {"id": x, "exc": repr(e)}))
+            if self.t._channels.get(x) is obj:
+                self.problems.append(("closed-channel-still-in-map", "a closed channel was not removed from the "
+                                      "live map under its own (local) id",
+                                      {"id": x, "remote_id": getattr(obj, "remote_chanid", None)}))
+                self.t._channels.delete(x)             # keep the run going on the model's track
         self.keep.pop(x, None)
         self.open_objs.pop(x, None)
         self.order = [y for y in self.order if y != x]
@@ -155,7 +178,7 @@ class Driver:
     def open_success(self, x):
         from paramiko.message import Message
         m = Message()
-        for v in (x, 77, 1 << 20, 1 << 15):
+        for v in (x, self.remote_id(), 1 << 20, 1 << 15):
             m.add_int(v)
         m.rewind()
         was_live = self.t._channels.get(x) is not None
@@ -186,7 +209,7 @@ class Driver:
         from paramiko.message import Message
         m = Message()
         m.add_string("session")
-        m.add_int(41)
+        m.add_int(self.remote_id())
         m.add_int(1 << 20)
         m.add_int(1 << 15)
         m.rewind()
